@@ -249,6 +249,14 @@ theorem classify_clock_irrelevant (cfg : Cfg) (ep : Endpoint) (data : Bytes) (lo
 theorem decoder_is_C01 (d : Bytes) (loc : Option Addr) (src : Addr) (now : Int) :
     decodeX Fixes.all d loc src now = decode d loc src now := decodeX_all_eq d loc src now
 
+/-- the responder answers M-SEARCH only: whatever the headers say (`MAN: "ssdp:discover"`, a matching
+    ST, any MX), a message with another start line makes it send nothing and schedule nothing -/
+theorem responder_only_msearch (fx : Fixes) (cfg : Cfg) (rl : Bytes) (h : Hdrs)
+    (hrl : rl ≠ ofString "M-SEARCH * HTTP/1.1") : responder fx cfg rl h = .ok noEff := by
+  unfold responder isSearch
+  have : (rl == ofString "M-SEARCH * HTTP/1.1") = false := by simpa using hrl
+  simp [this]
+
 /-- the known-device map is a dict: its keys stay unique whatever arrives -/
 theorem purgeLoop_sublist (now : Int) (d : PyDict Bytes Int) (nx : Option Int) :
     (purgeLoop now d nx).1.Sublist d := by
